@@ -77,7 +77,8 @@ class World:
                 raise HarnessError("scenario sets unexpected environment variable " + k)
             os.environ[k] = v
         # process-wide library state
-        ws._handshake.CookieJar.jar = {}
+        # (a new world is a new process: the module-level jar is a new object, whatever attributes it has grown)
+        ws._handshake.CookieJar = type(ws._handshake.CookieJar)()
         ws.setReconnect(0)
         ws.setdefaulttimeout(self.default_timeout)
         lg = logging.getLogger("websocket")
